@@ -1091,7 +1091,7 @@ func ruleC01NoFollow(c *Checker) {
 			}
 			t1, _ := condEdges(U, func(v ssa.Value) bool {
 				cl, ok := v.(*ssa.Call)
-				return ok && isFunc(calleeObj(cl), "os", "IsNotExist") && cl.Call.Args[0] == ev
+				return ok && osErrTest(cl) == "IsNotExist" && cl.Call.Args[0] == ev
 			})
 			symT, symF := symlinkEdges(U, fi)
 			if len(symF) == 0 {
@@ -1288,7 +1288,7 @@ func (p *Prog) isLinkRemover(g *ssa.Function) bool {
 	// IsNotExist(err) true edge
 	t1, _ := condEdges(g, func(v ssa.Value) bool {
 		cl, ok := v.(*ssa.Call)
-		return ok && isFunc(calleeObj(cl), "os", "IsNotExist") && cl.Call.Args[0] == ev
+		return ok && osErrTest(cl) == "IsNotExist" && cl.Call.Args[0] == ev
 	})
 	good = append(good, t1...)
 	// not a symlink
